@@ -207,3 +207,59 @@ def cursor_writer_table(b):
         out[(off, off + width)] = name
         off += width
     return out
+
+
+def _order(b, calls):
+    import functools
+
+    def cmp(x, y):
+        if x.bb == y.bb:
+            return 0
+        if b.dominates(x.bb, y.bb):
+            return -1
+        if b.dominates(y.bb, x.bb):
+            return 1
+        return (x.line > y.line) - (x.line < y.line)
+    return sorted(calls, key=functools.cmp_to_key(cmp))
+
+
+def _width(name):
+    import re
+    m = re.search(r"impl [iu](\d+)>", name)
+    return int(m.group(1)) // 8 if m else None
+
+
+def seq_writer(b):
+    """[(name, width)] of the integers a sequential encoder writes, in program order"""
+    out = []
+    for c in _order(b, [c for c in b.calls() if c.name.endswith("::to_le_bytes")]):
+        al = op_local(c.args[0]) if c.args else None
+        f = _field_of(b, al)
+        n = _named_source(b, al)
+        name = f if (f and not f.isdigit()) else n
+        out.append((name, _width(c.name)))
+    return out
+
+
+def seq_reader(b):
+    """[(bound name, width)] of the integers a sequential decoder reads, in program order"""
+    out = []
+    for c in _order(b, [c for c in b.calls() if c.name.endswith("::from_le_bytes")]):
+        l = c.dest[0]
+        name = b.local_name(l)
+        for _ in range(4):
+            if name:
+                break
+            nxt = None
+            for u in b.uses().get(l, []):
+                if u[2] == "drop" or u[1] < 0:
+                    continue
+                st = b.blocks[u[0]]["s"][u[1]]
+                if st[0] == "a" and st[2][0] in ("use", "cast") and not st[1][1]:
+                    nxt = st[1][0]
+            if nxt is None:
+                break
+            l = nxt
+            name = b.local_name(l)
+        out.append((name, _width(c.name)))
+    return out
